@@ -20,3 +20,21 @@ Theorem C10_accepted_contribution_is_authentic_partial :
   (exists p', registered_as p' (m_sender m) pid).
 Proof. exact accepted_contribution_is_authentic. Qed.
 Print Assumptions C10_accepted_contribution_is_authentic_partial.
+
+(* the same for EVERY accepted message (whether or not it produces an operation) of a round that is
+   in progress - neither cancelled nor timed out: its signature verified under its sender's registered
+   key, and the participant it names is the one registered for that sender.  So within a round the
+   status and data recorded for participant P change only in response to messages signed with P's
+   own key. *)
+Require Import Node.Authentic.
+Theorem C10_accepted_message_is_authentic :
+  forall now st m req pid h x,
+  ns_skip st = false ->
+  m_event m <> ev_sig_init -> m_event m <> ev_sig_reconstructed -> m_event m <> ev_sig_recon_failed ->
+  m_req m = MFsm req -> req_pid req = Some pid ->
+  in_progress st (m_round m) ->
+  process_message now {| h_st := st; h_tr := [] |} m = ROk h x ->
+  (exists p, round_payload st (m_round m) p /\ valid_sig p m) /\
+  (exists p', registered_as p' (m_sender m) pid).
+Proof. exact accepted_message_is_authentic. Qed.
+Print Assumptions C10_accepted_message_is_authentic.
